@@ -118,6 +118,8 @@ T = [
     ["v = [(lambda: $E), (lambda: $E)]"],
     ["def fe(p):", '    ""', "    $B", '    return ("", $E)'],
     ["def fp(p, /, q=$E, *, k):", "    loc = 1", "    $B", "    return (q, loc, k)"],
+    # a docstring that is not valid UTF-8 (lone surrogate)
+    ["def fs(p):", '    "\\udc80doc"', "    $B", "    return p"],
     # dead code after the last live instruction on a later line: <=3.9 keep a line-table
     # entry at len(co_code) while every table stays in first-use order
     ["def ge():", "    return", "    yield"],
@@ -314,6 +316,20 @@ def prog_Q():
                 yield {"k": "src", "s": "Q", "src": "def f():\n    return %s\ndef g():\n    return %s\n" % (a, b), "mode": "exec", "opt": 0}
 
 
+    # A, A', A again: two table entries with the same key, the first one used again
+    # after the second (in one block, and in a `finally` body, which 3.9+ duplicate)
+    for g in EQ_GROUPS:
+        for a in g:
+            for b in g:
+                if a == b:
+                    continue
+                yield {"k": "src", "s": "Q", "src": "v = %s\nw = %s\nu = %s\n" % (a, b, a), "mode": "exec", "opt": 0}
+                yield {"k": "src", "s": "Q", "src": "try:\n    f()\nfinally:\n    v = %s\n    w = %s\n" % (a, b), "mode": "exec", "opt": 0}
+    # an unreferenced nested code object that is equal (NaNs identified) to a
+    # referenced sibling
+    yield {"k": "src", "s": "Q", "src": "def h():\n    return (lambda: 1e999-1e999); cb = lambda: 1e999-1e999\n", "mode": "exec", "opt": 0}
+    yield {"k": "src", "s": "Q", "src": "def h():\n    assert True or (lambda: 1e999-1e999); return lambda: 1e999-1e999\n", "mode": "exec", "opt": 0}
+    yield {"k": "src", "s": "Q", "src": "def h(x):\n    while x or (lambda: 1e999-1e999):\n        x = lambda: 1e999-1e999\n    return (1e999-1e999, -(1e999-1e999))\n", "mode": "exec", "opt": 0}
     # different sibling code objects on one line whose constants have colliding hashes
     for a, b in HASH_COLLIDING:
         for x, y in ((a, b), (b, a)):
@@ -325,7 +341,7 @@ HASH_COLLIDING = [("-1", "-2"), ("0", "2305843009213693951"), ("1", "23058430092
 
 
 def n_prog_Q():
-    return sum(len(g) + 2 * len(g) * (len(g) - 1) for g in EQ_GROUPS) + 4 * len(HASH_COLLIDING)
+    return sum(len(g) + 4 * len(g) * (len(g) - 1) for g in EQ_GROUPS) + 3 + 4 * len(HASH_COLLIDING)
 
 
 def prog_P1():
